@@ -28,6 +28,15 @@ import (
 // (= cond(X^T W X) eps scale) and the sum of squares may exceed its minimum by
 // p tau_g^2 / sigma_min. Designs with cond(X^T W X) > 1e10 are skipped and
 // counted.
+//
+// All of these bounds are homogeneous in the scale of the weights and of ys,
+// so the workload also multiplies weight vectors by 10^U(-30,30), ys by 2^k
+// (|k| <= 330) and polynomial designs' xs by 2^k, hands LinearLeastSquares
+// bases without a constant term and bases in permuted order, and repeats every
+// fit with rescaled weights (same minimiser). LOESS is judged from
+// ceil(span*n) = degree+2 upwards: there the farthest window point has weight
+// 0 and the fit is the interpolant of the other degree+1 points (below that
+// the local fit is not determined and nothing is judged).
 
 const (
 	c15C       = 16.0
@@ -37,7 +46,7 @@ const (
 
 type c15Case struct {
 	Op     string  `json:"op"`              // "lls" | "poly" | "loess"
-	Basis  string  `json:"basis,omitempty"` // lls: mono | trig | exp | mixed
+	Basis  string  `json:"basis,omitempty"` // lls: mono | trig | exp | mixed | x | x-x2 | sincos
 	Degree int     `json:"degree"`
 	Xs     []mon.F `json:"xs"`
 	Ys     []mon.F `json:"ys"`
@@ -49,6 +58,13 @@ type c15Case struct {
 	Perm   []int   `json:"perm,omitempty"` // LOESS: order in which the (ascending) data are handed over
 	Seed   uint64  `json:"seed"`           // randomness used inside the judge
 	Domain string  `json:"domain,omitempty"`
+	// lls: order in which the basis functions are handed over (a permutation
+	// of the basis' own order); null: the basis' own order
+	TermPerm []int `json:"term_perm,omitempty"`
+	// the generator multiplied xs (and Qs) by 2^KX and ys by 2^KY
+	// (informational: both are already applied to Xs, Ys, Qs, Coef)
+	KX int `json:"kx,omitempty"`
+	KY int `json:"ky,omitempty"`
 }
 
 func init() {
@@ -137,15 +153,43 @@ func c15CheckGuards(w *mon.W, c c15Case, after string, gs ...*c15Guard) bool {
 type c15Sentinel struct{ msg string }
 
 type c15Terms struct {
-	names  []string
-	fns    []func(x float64) float64
-	calls  []int
-	budget int
-	lenBad bool
+	names    []string
+	fns      []func(x float64) float64
+	calls    []int
+	budget   int
+	lenBad   bool
+	constIdx int // position of the constant function 1, -1 when the basis has none
+}
+
+// permute reorders the basis: new term k is old term perm[k]. It reports
+// whether perm was a permutation of the right length.
+func (t *c15Terms) permute(perm []int) bool {
+	p := len(t.fns)
+	if len(perm) != p {
+		return false
+	}
+	seen := make([]bool, p)
+	for _, k := range perm {
+		if k < 0 || k >= p || seen[k] {
+			return false
+		}
+		seen[k] = true
+	}
+	names := make([]string, p)
+	fns := make([]func(float64) float64, p)
+	ci := -1
+	for k, o := range perm {
+		names[k], fns[k] = t.names[o], t.fns[o]
+		if o == t.constIdx {
+			ci = k
+		}
+	}
+	t.names, t.fns, t.constIdx = names, fns, ci
+	return true
 }
 
 func c15Basis(name string, degree int) *c15Terms {
-	t := &c15Terms{}
+	t := &c15Terms{constIdx: -1}
 	add := func(n string, f func(float64) float64) {
 		t.names = append(t.names, n)
 		t.fns = append(t.fns, f)
@@ -178,6 +222,18 @@ func c15Basis(name string, degree int) *c15Terms {
 		add("sin2x", func(x float64) float64 { return math.Sin(2 * x) })
 		add("1/(1+x^2)", func(x float64) float64 { return 1 / (1 + x*x) })
 		add("tanh", math.Tanh)
+	// bases without the constant function: regression through the origin
+	case "x":
+		add("x", mono(1))
+	case "x-x2":
+		add("x", mono(1))
+		add("x^2", mono(2))
+	case "sincos":
+		add("sin", math.Sin)
+		add("cos", math.Cos)
+	}
+	if name == "mono" || name == "trig" || name == "exp" || name == "mixed" {
+		t.constIdx = 0
 	}
 	t.calls = make([]int, len(t.fns))
 	return t
@@ -255,6 +311,12 @@ func c15Brief(c c15Case) string {
 	s := fmt.Sprintf("n=%d degree=%d weights=%s", len(c.Xs), c.Degree, ws)
 	if c.Basis != "" {
 		s += " basis=" + c.Basis
+		if c.TermPerm != nil {
+			s += fmt.Sprintf(" term-order=%v", c.TermPerm)
+		}
+	}
+	if c.KX != 0 || c.KY != 0 {
+		s += fmt.Sprintf(" (xs scaled by 2^%d, ys by 2^%d)", c.KX, c.KY)
 	}
 	if c.Domain != "" {
 		s += " domain=" + c.Domain
@@ -273,6 +335,101 @@ func c15Ws(c c15Case) []float64 {
 		return nil
 	}
 	return mon.Un(c.Ws)
+}
+
+// c15Rescale multiplies xs and the queries by 2^kx and ys by 2^ky, and the
+// generating polynomial's coefficient j by 2^(ky-j*kx), so that it still
+// generates the data. All of this is exact (powers of two, far from the ends
+// of the float64 range), so exact polynomial data stay exact.
+func c15Rescale(c *c15Case, kx, ky int) {
+	for i := range c.Xs {
+		c.Xs[i] = mon.F(math.Ldexp(float64(c.Xs[i]), kx))
+	}
+	for i := range c.Qs {
+		c.Qs[i] = mon.F(math.Ldexp(float64(c.Qs[i]), kx))
+	}
+	for i := range c.Ys {
+		c.Ys[i] = mon.F(math.Ldexp(float64(c.Ys[i]), ky))
+	}
+	for j := range c.Coef {
+		c.Coef[j] = mon.F(math.Ldexp(float64(c.Coef[j]), ky-j*kx))
+	}
+	c.KX, c.KY = c.KX+kx, c.KY+ky
+}
+
+// c15ScaleClasses records, from the inputs alone, how far the overall scale of
+// the weights and of ys is from 1.
+func c15ScaleClasses(w *mon.W, c c15Case, ys, ws []float64) {
+	if ws != nil {
+		lo, hi := math.Inf(1), 0.0
+		for _, v := range ws {
+			lo, hi = math.Min(lo, v), math.Max(hi, v)
+		}
+		w.HitIf(hi < 1e-6, "weights-all-tiny(<1e-6)")
+		w.HitIf(lo > 1e6, "weights-all-huge(>1e6)")
+	}
+	ym := 0.0
+	for _, v := range ys {
+		ym = math.Max(ym, math.Abs(v))
+	}
+	w.HitIf(ym > 0 && ym < 1e-30, "ys-all-tiny(<1e-30)")
+	w.HitIf(ym > 1e30, "ys-huge(>1e30)")
+	w.HitIf(c.KX != 0, "xs-rescaled")
+}
+
+// c15ScaledWeights returns c*ws (ws == nil: the constant weight c), or nil
+// when a product leaves the positive normal range.
+func c15ScaledWeights(ws []float64, n int, c float64) []float64 {
+	out := make([]float64, n)
+	for i := range out {
+		v := c
+		if ws != nil {
+			v = c * ws[i]
+		}
+		if !(v > 1e-250 && v < 1e250) {
+			return nil
+		}
+		out[i] = v
+	}
+	return out
+}
+
+// c15WeightScaleLaw: S computed with the weights c*w is c times S computed with
+// w, so both have the same minimiser (no weights means every weight is 1).
+// Each fit is within tau_b of the exact minimiser of its own problem and the
+// rounding of c*w[i] is a relative eps perturbation of the weights, which the
+// backward-error model behind tau_b covers: the two fits differ by at most
+// 3 tau_b. fitWith performs the library call with the given weights.
+func c15WeightScaleLaw(w *mon.W, c c15Case, m *ref.LSQ, who string, first []float64, fitWith func(ws *c15Guard) ([]float64, bool)) {
+	rng := mon.NewRand(c.Seed, 0x5ca1e)
+	f := math.Pow(10, rng.Uniform(-30, 30))
+	ws2 := c15ScaledWeights(c15Ws(c), len(c.Xs), f)
+	if ws2 == nil {
+		return
+	}
+	gw := c15NewGuard("weights", ws2, false)
+	second, ok := fitWith(gw)
+	if !ok {
+		return
+	}
+	c15CheckGuards(w, c, who, gw)
+	w.Hit("weight-scale-law-checked")
+	what := fmt.Sprintf("every weight multiplied by %.6g", f)
+	if c.Ws == nil {
+		what = fmt.Sprintf("no weights replaced by the constant weight %.6g", f)
+	}
+	if len(second) != len(first) || !c15Finite(second) {
+		w.Violate(who+"-weight-scale", fmt.Sprintf("%s returned %v with %s; %v before (%s)", who, second, what, first, c15Brief(c)), c)
+		return
+	}
+	dist := 0.0
+	for j := range first {
+		dist = math.Hypot(dist, second[j]-first[j])
+	}
+	tb := m.TolBeta(c15C, false)
+	if !w.Err(who+"-weight-scale", dist, 3*tb) {
+		w.Violate(who+"-weight-scale", fmt.Sprintf("%s: the fit depends on the overall scale of the weights: %v, but %v with %s (distance %.6g, tolerance %.3g, cond=%.3g; %s)", who, first, second, what, dist, 3*tb, m.Cond, c15Brief(c)), c)
+	}
 }
 
 // c15WellPosed decides, from the reference side only, whether the design is
@@ -333,7 +490,7 @@ func c15JudgeParams(w *mon.W, c c15Case, m *ref.LSQ, params []float64, who strin
 
 	// 3. no perturbation of the coefficients lowers the sum (beyond what tau_g allows)
 	s0 := m.SumSq(beta)
-	ts := float64(m.P) * tg * tg / m.SigmaMin
+	ts := float64(m.P) * tg * (tg / m.SigmaMin) // in this order: tg*tg may underflow for tiny ys
 	rng := mon.NewRand(c.Seed, 0x15)
 	scale := 0.0
 	for _, p := range params {
@@ -384,6 +541,9 @@ func c15JudgeLLS(w *mon.W, c c15Case) {
 	if len(t.fns) == 0 || len(xs) != len(ys) || (ws != nil && len(ws) != len(xs)) {
 		return
 	}
+	if c.TermPerm != nil && !t.permute(c.TermPerm) {
+		return
+	}
 	phi := t.values(xs)
 	m := ref.NewLSQ(ref.BigRows(phi), ys, ws)
 	if !c15WellPosed(w, m) {
@@ -394,6 +554,11 @@ func c15JudgeLLS(w *mon.W, c c15Case) {
 	w.Hit("lls-basis-" + c.Basis)
 	w.HitIf(c.Basis == "mono" && c.Degree >= 3, "lls-monomial-degree>=3")
 	w.HitIf(len(xs) == m.P, "n==p(interpolation)")
+	w.HitIf(t.constIdx < 0, "lls-no-constant-term")
+	w.HitIf(t.constIdx > 0, "lls-constant-not-first")
+	w.HitIf(t.constIdx > 0 && t.constIdx == m.P-1, "lls-constant-last")
+	w.HitIf(c.TermPerm != nil, "lls-terms-permuted")
+	c15ScaleClasses(w, c, ys, ws)
 
 	gx, gy, gw := c15NewGuard("xs", xs, false), c15NewGuard("ys", ys, false), c15NewGuard("weights", ws, ws == nil)
 	var params []float64
@@ -416,9 +581,23 @@ func c15JudgeLLS(w *mon.W, c c15Case) {
 	if t.lenBad {
 		w.Note("term-called-with-len(xs)!=len(termOut)")
 	}
-	c15JudgeParams(w, c, m, params, "LinearLeastSquares")
+	if c15JudgeParams(w, c, m, params, "LinearLeastSquares") {
+		c15WeightScaleLaw(w, c, m, "LinearLeastSquares", params, func(gw2 *c15Guard) (out []float64, ok bool) {
+			w.Eval("LinearLeastSquares")
+			if p, e := mon.Call(func() { out = fit.LinearLeastSquares(gx.Slice(), gy.Slice(), gw2.Slice(), t.lib(len(xs))...) }); p {
+				if s, isS := e.(c15Sentinel); isS {
+					w.Violate("step-budget", fmt.Sprintf("LinearLeastSquares: %s (%s)", s.msg, c15Brief(c)), c)
+				} else {
+					w.Violate("panic", fmt.Sprintf("LinearLeastSquares (weights rescaled) panicked: %v (%s)", e, c15Brief(c)), c)
+				}
+				return nil, false
+			}
+			return out, true
+		})
+		c15CheckGuards(w, c, "LinearLeastSquares", gx, gy)
+	}
 	if w.WantSample() {
-		w.Sample(map[string]any{"op": "LinearLeastSquares", "basis": c.Basis, "n": len(xs), "p": m.P, "weights": ws != nil, "cond": m.Cond, "params": params, "term_calls": t.calls})
+		w.Sample(map[string]any{"op": "LinearLeastSquares", "basis": c.Basis, "terms": t.names, "n": len(xs), "p": m.P, "weights": ws != nil, "cond": m.Cond, "params": params, "term_calls": t.calls})
 	}
 }
 
@@ -443,6 +622,7 @@ func c15JudgePoly(w *mon.W, c c15Case) {
 	w.HitIf(c.Coef != nil && !c.Exact, "rounded-polynomial-data")
 	w.HitIf(c.Coef == nil, "non-polynomial-data")
 	w.HitIf(c.Domain != "", "shifted-domain")
+	c15ScaleClasses(w, c, ys, ws)
 
 	gx, gy, gw := c15NewGuard("xs", xs, false), c15NewGuard("ys", ys, false), c15NewGuard("weights", ws, ws == nil)
 	var res fit.PolynomialRegressionResult
@@ -553,6 +733,18 @@ func c15JudgePoly(w *mon.W, c c15Case) {
 	if !w.Err("poly-vs-lls", dist, 3*tb) {
 		w.Violate("poly-vs-lls", fmt.Sprintf("PolynomialRegression degree %d returned %v but LinearLeastSquares on {1,x,..,x^%d} returned %v (distance %.6g, tolerance %.3g; %s)", d, coef, d, params, dist, 3*tb, c15Brief(c)), c)
 	}
+
+	// the fit does not depend on the overall scale of the weights
+	c15WeightScaleLaw(w, c, m, "PolynomialRegression", coef, func(gw2 *c15Guard) ([]float64, bool) {
+		var r2 fit.PolynomialRegressionResult
+		w.Eval("PolynomialRegression")
+		if p, e := mon.Call(func() { r2 = fit.PolynomialRegression(gx.Slice(), gy.Slice(), gw2.Slice(), d) }); p {
+			w.Violate("panic", fmt.Sprintf("PolynomialRegression (weights rescaled) panicked: %v (%s)", e, c15Brief(c)), c)
+			return nil, false
+		}
+		return append([]float64(nil), r2.Coefficients...), true
+	})
+	c15CheckGuards(w, c, "PolynomialRegression", gx, gy)
 	if w.WantSample() {
 		w.Sample(map[string]any{"op": "PolynomialRegression", "degree": d, "n": len(xs), "weights": ws != nil, "cond": m.Cond, "coefficients": coef, "minimiser": c15F64s(m.Beta)})
 	}
@@ -636,8 +828,15 @@ func c15JudgeLOESS(w *mon.W, c c15Case) {
 		w.Ambiguous()
 		w.Note("span*n-within-rounding-of-integer")
 	}
-	if qe < deg+3 && qr < deg+3 {
-		return // outside the generated domain (local problem not well posed)
+	if qe < deg+2 && qr < deg+2 {
+		// the farthest point of the window has tricube weight 0, so at most
+		// degree points carry weight: the local fit is not determined and
+		// the statement says nothing. (With q = degree+2 exactly degree+1
+		// points carry weight unless the query is midway between the window
+		// ends: the fit is the interpolating polynomial through them, judged
+		// below when its design is well conditioned.)
+		w.Note("loess-q<degree+2-undetermined-skipped")
+		return
 	}
 	prod := span * float64(n)
 	frac := prod - math.Floor(prod)
@@ -686,6 +885,13 @@ func c15JudgeLOESS(w *mon.W, c c15Case) {
 		return
 	}
 	rng := mon.NewRand(c.Seed, 0x10e55)
+	ymax := 0.0
+	for _, y := range ys {
+		ymax = math.Max(ymax, math.Abs(y))
+	}
+	if ymax == 0 {
+		ymax = 1
+	}
 	one := func(x float64) c15Case {
 		cc := c
 		cc.Qs = []mon.F{mon.F(x)}
@@ -714,6 +920,9 @@ func c15JudgeLOESS(w *mon.W, c c15Case) {
 		w.HitIf(x > xs[0] && x < xs[n-1], "query-inside")
 		k := sort.SearchFloat64s(xs, x)
 		w.HitIf(k < n && xs[k] == x, "query-at-datum")
+		w.HitIf(!qAmb && qe == deg+2, "loess-q==degree+2(interpolation)")
+		w.HitIf(!qAmb && qe == deg+2 && deg == 0, "loess-q==2-degree-0(nearest-point)")
+		c15ScaleClasses(w, c, ys, nil)
 		if tie {
 			w.Hit("window-tie")
 			w.Ambiguous()
@@ -773,7 +982,7 @@ func c15JudgeLOESS(w *mon.W, c c15Case) {
 			y2 := append([]float64(nil), ys...)
 			for i := range y2 {
 				if !in[i] {
-					y2[i] = ys[i] + rng.Sign()*rng.LogUniform(1, 1e6)
+					y2[i] = ys[i] + rng.Sign()*rng.LogUniform(1, 1e6)*ymax
 				}
 			}
 			gx2, gy2 := c15NewGuard("xs", xs, false), c15NewGuard("ys", y2, false)
@@ -932,17 +1141,59 @@ func c15Smooth(rng *mon.Rand, xs []float64, domain string) []float64 {
 	return ys
 }
 
+// c15ScaleWeights multiplies a generated weight vector by 10^U(-30,30) in a
+// third of the cases: the statement's weights are "random positive", and only
+// their ratios matter to the minimiser.
+func c15ScaleWeights(rng *mon.Rand, ws []float64) {
+	if ws == nil || rng.Intn(3) != 0 {
+		return
+	}
+	f := math.Pow(10, rng.Uniform(-30, 30))
+	for i := range ws {
+		ws[i] *= f
+	}
+}
+
+// c15KY draws the power of two by which ys are multiplied (a quarter of the
+// cases; up to 2^+-330, about 1e+-99).
+func c15KY(rng *mon.Rand) int {
+	if rng.Intn(4) != 0 {
+		return 0
+	}
+	return rng.Range(-330, 330)
+}
+
+// c15KX draws the power of two by which xs are multiplied (a quarter of the
+// cases) for a polynomial design of the given degree. The condition number of
+// the monomial design grows like 2^(2*degree*|k|), so the range is chosen to
+// leave a good share of the designs below the 1e10 limit of the quantifier;
+// the others are skipped by c15WellPosed as before.
+func c15KX(rng *mon.Rand, degree int) int {
+	if rng.Intn(4) != 0 {
+		return 0
+	}
+	K := 200
+	if degree > 0 {
+		K = 16 / degree
+	}
+	k := rng.Range(1, K)
+	if rng.Bool() {
+		k = -k
+	}
+	return k
+}
+
 func c15Hash(c c15Case) uint64 {
 	h := mon.NewHasher().S(c.Op).S(c.Basis).I(c.Degree).Fs(mon.Un(c.Xs)).Fs(mon.Un(c.Ys)).F(float64(c.Span))
 	if c.Ws != nil {
 		h = h.Fs(mon.Un(c.Ws))
 	}
-	return h.Is(c.Perm).Sum()
+	return h.Is(c.Perm).Is(c.TermPerm).Sum()
 }
 
 func c15GenLLS(rng *mon.Rand, i int) c15Case {
 	c := c15Case{Op: "lls", Seed: rng.Uint64()}
-	switch i % 5 {
+	switch i % 8 {
 	case 0, 1:
 		c.Basis = "mono"
 		c.Degree = rng.Range(0, 6)
@@ -950,10 +1201,32 @@ func c15GenLLS(rng *mon.Rand, i int) c15Case {
 		c.Basis = "trig"
 	case 3:
 		c.Basis = "exp"
-	default:
+	case 4:
 		c.Basis = "mixed"
+	case 5:
+		c.Basis = "x-x2"
+	case 6:
+		c.Basis = "sincos"
+	default:
+		c.Basis = "x"
 	}
 	p := len(c15Basis(c.Basis, c.Degree).fns)
+	if p >= 2 && rng.Intn(3) == 0 {
+		// hand the terms over in another order: reversed (the constant, if
+		// any, comes last) or shuffled
+		perm := rng.Perm(p)
+		if rng.Bool() {
+			for k := range perm {
+				perm[k] = p - 1 - k
+			}
+		}
+		for k, o := range perm {
+			if k != o {
+				c.TermPerm = perm
+				break
+			}
+		}
+	}
 	lo := imax(3, p)
 	n := rng.Range(lo, 40)
 	if rng.Intn(8) == 0 {
@@ -984,8 +1257,19 @@ func c15GenLLS(rng *mon.Rand, i int) c15Case {
 	}
 	c.Xs, c.Ys = mon.Fs(xs), mon.Fs(ys)
 	if ws := c15Weights(rng, n); ws != nil {
+		c15ScaleWeights(rng, ws)
 		c.Ws = mon.Fs(ws)
 	}
+	kx := 0
+	switch c.Basis { // only for bases on which a change of the unit of x is a change of basis scaling
+	case "mono":
+		kx = c15KX(rng, c.Degree)
+	case "x-x2":
+		kx = c15KX(rng, 2)
+	case "x":
+		kx = c15KX(rng, 0) / 2
+	}
+	c15Rescale(&c, kx, c15KY(rng))
 	return c
 }
 
@@ -1035,6 +1319,7 @@ func c15GenPoly(rng *mon.Rand, i int) c15Case {
 	}
 	c.Xs, c.Ys = mon.Fs(xs), mon.Fs(ys)
 	if ws := c15Weights(rng, n); ws != nil {
+		c15ScaleWeights(rng, ws)
 		c.Ws = mon.Fs(ws)
 	}
 	lo2, hi2 := -3.0, 3.0
@@ -1046,6 +1331,11 @@ func c15GenPoly(rng *mon.Rand, i int) c15Case {
 	}
 	qs := []float64{0, 1, -1, rng.Uniform(lo2, hi2), rng.Uniform(lo2, hi2), rng.Uniform(lo2, hi2), rng.Sign() * rng.LogUniform(1e-8, 50), 0.5}
 	c.Qs = mon.Fs(qs)
+	kx := 0
+	if c.Domain == "" {
+		kx = c15KX(rng, d)
+	}
+	c15Rescale(&c, kx, c15KY(rng))
 	return c
 }
 
@@ -1080,13 +1370,18 @@ func c15GenLOESS(rng *mon.Rand, i int) c15Case {
 	if rng.Intn(5) == 0 {
 		c.Domain = []string{"[10,12]", "[0,1e3]"}[rng.Intn(2)]
 	}
-	n := rng.Range(deg+3, 40)
+	n := rng.Range(imax(3, deg+2), 40)
 	if rng.Intn(4) == 0 {
-		n = rng.Range(deg+3, deg+8)
+		n = rng.Range(imax(3, deg+2), deg+8)
 	}
-	q := rng.Range(deg+3, n)
+	q := rng.Range(deg+2, n)
 	if rng.Intn(3) == 0 {
-		q = rng.Range(deg+3, imin(n, deg+6))
+		q = rng.Range(deg+2, imin(n, deg+6))
+	}
+	if rng.Intn(8) == 0 {
+		// the smallest window that determines the fit: the farthest of the
+		// degree+2 points has weight 0 and the fit interpolates the others
+		q = deg + 2
 	}
 	var span float64
 	switch rng.Intn(6) {
@@ -1095,10 +1390,10 @@ func c15GenLOESS(rng *mon.Rand, i int) c15Case {
 	case 1:
 		span = 1
 	case 2: // dyadic span, n a multiple of 4: span*n exactly an integer
-		n = 4 * rng.Range(imax(1, (deg+6)/4), 10)
+		n = 4 * rng.Range(imax(1, (deg+5)/4), 10)
 		var okSpans []float64
 		for _, s := range []float64{0.25, 0.5, 0.75, 1} {
-			if int(s*float64(n)) >= deg+3 {
+			if int(s*float64(n)) >= deg+2 {
 				okSpans = append(okSpans, s)
 			}
 		}
@@ -1136,6 +1431,11 @@ func c15GenLOESS(rng *mon.Rand, i int) c15Case {
 		qe = n
 	}
 	c.Qs = mon.Fs(c15LoessQueries(rng, xs, qe))
+	kx := 0
+	if c.Domain == "" {
+		kx = c15KX(rng, deg)
+	}
+	c15Rescale(&c, kx, c15KY(rng))
 	return c
 }
 
@@ -1199,13 +1499,16 @@ func c15SelfTest() error {
 }
 
 func c15Run(r *mon.Run) {
-	r.Rule("designs: 3..40 distinct x in [-2,2] (uniform, equispaced, dyadic grid, two clusters), for degree<=2 also mapped to [10,12] and [0,1e3]; weights nil / log-uniform 1e-2..1e2 / constant / small integers; LinearLeastSquares on monomials 0..6, {1,sin,cos}, {1,x,exp}, a 5-function mixed basis; PolynomialRegression degree 0..6 on exact, rounded and noisy polynomial data and smooth data; LOESS degree 0..2, ceil(span*n) from degree+3 to n, sorted and shuffled input, queries inside, at data, at and beyond both ends and around window switches. Designs with cond(X^T W X) > 1e10 are skipped. Non-trivial = hits a class; distinct by hash of (op, basis, degree, xs, ys, weights, span, order).")
+	r.Rule("designs: 3..40 distinct x in [-2,2] (uniform, equispaced, dyadic grid, two clusters), for degree<=2 also mapped to [10,12] and [0,1e3]; weights nil / log-uniform 1e-2..1e2 / constant / small integers; LinearLeastSquares on monomials 0..6, {1,sin,cos}, {1,x,exp}, a 5-function mixed basis and the constant-free bases {x}, {x,x^2}, {sin,cos}, in a third of the cases with the terms reversed (constant last) or shuffled; in a third of the weighted cases the weight vector is multiplied by 10^U(-30,30), in a quarter of all cases ys by 2^k (|k|<=330) and, for polynomial designs on [-2,2], xs by 2^k (|k|<=16/degree; any for degree 0); every LinearLeastSquares / PolynomialRegression fit is repeated with all weights multiplied by a random 10^U(-30,30) (no weights: the constant weight) and must not move; PolynomialRegression degree 0..6 on exact, rounded and noisy polynomial data and smooth data; LOESS degree 0..2, ceil(span*n) from degree+2 (the farthest point has weight 0: interpolation of the degree+1 others) to n, sorted and shuffled input, queries inside, at data, at and beyond both ends and around window switches. Designs with cond(X^T W X) > 1e10 are skipped. Non-trivial = hits a class; distinct by hash of (op, basis, degree, xs, ys, weights, span, order).")
 	r.Assume("reference: exact minimiser by 384-bit Gaussian elimination of the normal equations formed from the float64 inputs, cross-checked at start-up against gonum Householder QR and the published NIST LOWESS example; condition numbers from gonum/mat SVD of X^T W X",
 		"the basis functions handed to LinearLeastSquares are pure; their float64 values define the problem",
 		"tolerances: backward-stable normal-equations bound with C=16 (see the head of props/c15.go)")
 	r.Gate("degree>=3", "weights-present", "weights-nil", "shuffled-input", "span*n-not-integer", "span*n-integer", "query-outside-data", "query-at-end", "query-inside", "query-at-datum",
 		"exact-polynomial-data", "lls-basis-mono", "lls-basis-trig", "lls-basis-exp", "lls-basis-mixed", "lls-monomial-degree>=3", "locality-checked", "loess-polynomial-data", "window-is-all-data",
-		"loess-degree-0", "loess-degree-1", "loess-degree-2", "poly-degree-6")
+		"loess-degree-0", "loess-degree-1", "loess-degree-2", "poly-degree-6",
+		"lls-basis-x", "lls-basis-x-x2", "lls-basis-sincos", "lls-no-constant-term", "lls-constant-not-first", "lls-constant-last", "lls-terms-permuted",
+		"weights-all-tiny(<1e-6)", "weights-all-huge(>1e6)", "ys-all-tiny(<1e-30)", "ys-huge(>1e30)", "xs-rescaled", "weight-scale-law-checked",
+		"loess-q==degree+2(interpolation)", "loess-q==2-degree-0(nearest-point)")
 	if err := c15SelfTest(); err != nil {
 		r.Inconclusive("reference self-test failed: " + err.Error())
 		return
@@ -1227,7 +1530,7 @@ func c15Run(r *mon.Run) {
 		w.Distinct(c15Hash(c))
 	})
 
-	// enumerated LOESS space: every (n, degree, q) with q >= degree+3 for
+	// enumerated LOESS space: every (n, degree, q) with q >= degree+2 for
 	// small n on an irregular grid, queries at every datum, at every window
 	// switch point and just either side of it
 	maxN := r.Pick(14, 24)
@@ -1235,12 +1538,12 @@ func c15Run(r *mon.Run) {
 	var space []ndq
 	for n := 3; n <= maxN; n++ {
 		for d := 0; d <= 2; d++ {
-			for q := d + 3; q <= n; q++ {
+			for q := d + 2; q <= n; q++ {
 				space = append(space, ndq{n, d, q})
 			}
 		}
 	}
-	r.Exhaustive(fmt.Sprintf("LOESS: all (n, degree, q=ceil(span*n)) with 3<=n<=%d, degree 0..2, degree+3<=q<=n; queries at every datum, every window switch point and 1e-6 either side", maxN))
+	r.Exhaustive(fmt.Sprintf("LOESS: all (n, degree, q=ceil(span*n)) with 3<=n<=%d, degree 0..2, degree+2<=q<=n; queries at every datum, every window switch point and 1e-6 either side", maxN))
 	r.Parallel("loess-enum", len(space), func(w *mon.W, i int) {
 		s := space[i]
 		rng := w.Rng
